@@ -560,7 +560,7 @@ func specB(r *report.Run) explore.Spec {
 	if !ok {
 		panic("consensus module has no end-blocker")
 	}
-	e := &envB{w: w, r: r, queue: world.TurnstoneQueue(ref), user: u, consensu: mod, bFor: map[int]bool{5: true}}
+	e := &envB{w: w, r: r, queue: world.TurnstoneQueue(ref), user: u, consensu: mod, bFor: map[int]bool{2: true, 5: true}}
 	if r.Thorough() {
 		for i := range w.Vals {
 			e.bFor[i] = true
